@@ -41,9 +41,26 @@ static J gen_culling(Chooser &ch)
       w.feats[0].dmin = 0;
       w.feats[0].reach = seg["length"].num() + seg["thickness"][0].num();
     }
+  // a targeted share: a short slab / fault whose last segment thickens downwards: its deepest and farthest members are reached
+  // through the bottom thickness only, which the length + thickness bounds have to allow for
+  const bool thickening = !shallow_ns && ch.chance(20);
+  if (thickening)
+    {
+      J &f = w.root["features"][0];
+      J seg = J::obj();
+      seg["length"] = ch.lattice(100e3, 250e3, 10e3) * (w.fr.sph ? w.fr.R / 6371e3 : 1.0);
+      seg["thickness"] = J::arr({J(ch.lattice(30e3, 60e3, 10e3)), J(ch.lattice(150e3, 300e3, 10e3))});
+      seg["angle"] = J::arr({J(ch.lattice(25, 65, 5))});
+      f["segments"] = J::arr({seg});
+      f.erase("sections");
+      f.erase("min depth");
+      f.erase("max depth");
+      w.feats[0].dmin = 0;
+      w.feats[0].reach = seg["length"].num() + seg["thickness"][1].num();
+    }
   // a targeted share: an east-west trench close to a pole whose shallow slab dips poleward, so that the member reaches (and passes)
   // the pole, where a degree of longitude is arbitrarily short
-  const bool polar = w.fr.sph && !shallow_ns && ch.chance(20);
+  const bool polar = w.fr.sph && !shallow_ns && !thickening && ch.chance(20);
   if (polar)
     {
       J &f = w.root["features"][0];
@@ -110,8 +127,19 @@ static J gen_culling(Chooser &ch)
           // horizontal extent of the surface, at the depth the surface has there (estimated with the first dip)
           const J &f = w.root.at("features")[static_cast<size_t>(&m - &w.feats[0])];
           const double dip = f.at("segments")[0].at("angle")[0].num() * DEG;
-          const double frac = ch.real(0.55, 1.0), along = frac * (m.reach - 40e3);
-          const double hor = along * std::cos(dip), dep = m.dmin + along * std::sin(dip) + ch.real(5e3, 35e3);
+          double frac = ch.real(0.55, 1.0), along = frac * (m.reach - 40e3);
+          double hor = along * std::cos(dip), dep = m.dmin + along * std::sin(dip) + ch.real(5e3, 35e3);
+          if (thickening && &m == &w.feats[0])
+            {
+              // slab coordinates: `along` the surface (of its length), `from` it by a share of the local thickness, on the lower side
+              const double L = f.at("segments")[0].at("length").num(), t0 = f.at("segments")[0].at("thickness")[0].num(), t1 = f.at("segments")[0].at("thickness")[1].num();
+              const bool fault = f.at("model").str() == "fault";
+              along = ch.real(0.7, 0.999) * L;
+              const double from = ch.real(0.5, 0.98) * (t0 + along / L * (t1 - t0)) * (fault ? 0.5 : 1.0);
+              hor = along * std::cos(dip) - from * std::sin(dip);
+              dep = along * std::sin(dip) + from * std::cos(dip);
+              if (ch.flip() && fault) { hor = along * std::cos(dip) + from * std::sin(dip); dep = along * std::sin(dip) - from * std::cos(dip); }
+            }
           size_t k = ch.index(m.coords.size() - 1);
           double t = ch.real(0, 1);
           if (near_pole_end && &m == &w.feats[0] && ch.chance(60)) { k = m.coords.size() - 2; t = ch.real(0.9, 1.0); } // next to the polar end of the trench
@@ -240,6 +268,13 @@ static Result check_surface(const J &c)
     if (!ok) { r.discard = true; return r; }
   }
   WB::Objects::Surface S(vp);
+  // the pre-test bounds callers use before they evaluate the local surface: exactly the smallest and the largest listed value
+  {
+    const double lo = *std::min_element(vp.first.begin(), vp.first.end()), hi = *std::max_element(vp.first.begin(), vp.first.end());
+    r.inner++; r.inner_nt++;
+    if (S.minimum != lo || S.maximum != hi)
+      return Result::fail("surface-min-max", "Surface reports minimum " + fmt(S.minimum) + " / maximum " + fmt(S.maximum) + " for " + std::to_string(vp.first.size()) + " values whose smallest is " + fmt(lo) + " and largest " + fmt(hi));
+  }
   r.classes.push_back(sph ? "spherical" : "cartesian");
   r.classes.push_back(S.triangles.size() < 10 ? "triangles<10" : "triangles>=10");
   double vmin = 1e300, vmax = -1e300;
